@@ -11,6 +11,8 @@ import OutrankModel.Drv.C12
 import OutrankModel.Drv.C17
 import OutrankModel.Drv.C19
 import OutrankModel.Drv.C20
+import OutrankModel.Drv.C08
+import OutrankModel.Drv.C09
 /-!
 Line-protocol driver (DESIGN §2.2): one request per line on stdin, one reply per line on stdout.
 Adds only parsing and printing around the definitions the theorems are about.  Each property contributes one
@@ -30,7 +32,9 @@ def handlers : List (String × Handler) := [
   ("C12", C12Drv.drv),
   ("C17", C17Drv.drv),
   ("C19", C19Drv.drv),
-  ("C20", C20Drv.drv)
+  ("C20", C20Drv.drv),
+  ("C08", C08Drv.drv),
+  ("C09", C09Drv.drv)
 ]
 
 abbrev DState := List (String × Val)
